@@ -150,6 +150,14 @@ func policy(srv *udpnet.Server, c Case) func(rx *simbmc.Rx) []udpnet.Reply {
 				out = append(out, udpnet.Reply{Data: junk, After: time.Duration(i) * c.T * 4 / 5})
 			}
 			return out
+		case "garbage-ff-run":
+			// garbage of a particular shape: an RMCP+ header with the authenticated
+			// flag, an 8-byte payload and then nothing but 0xFF up to 330 bytes
+			g := append([]byte{6, 0, 0xff, 7, 6, 0xC0, 0x78, 0x56, 0x34, 0x12, 1, 0, 0, 0, 8, 0}, make([]byte, 8)...)
+			for len(g) < 330 {
+				g = append(g, 0xFF)
+			}
+			return []udpnet.Reply{{Data: g}}
 		case "garbage":
 			return []udpnet.Reply{{Data: []byte{6, 0, 0xff, 7, 6, 0, 1, 2, 3, 4, 5, 6, 7, 8, 9}}}
 		case "busy":
@@ -394,6 +402,9 @@ func cases() []Case {
 				Case{Call: call, Fault: "garbage", K: 0, T: 300 * time.Millisecond, D: 150 * time.Millisecond, Prelude: pre})
 		}
 	}
+	for _, call := range []string{"sessionless", "newsession", "insession", "close", "sdr", "dcmi"} {
+		out = append(out, Case{Call: call, Fault: "garbage-ff-run", K: 0, T: 100 * time.Millisecond, D: 600 * time.Millisecond})
+	}
 	// junk that keeps arriving late in each attempt's window: the deadline equals
 	// one attempt timeout, or falls inside the second attempt
 	for _, call := range []string{"sessionless", "newsession", "insession", "close", "sdr", "dcmi"} {
@@ -439,7 +450,7 @@ func TestDeadlines(t *testing.T) {
 		// a seed-dependent stride through the enumeration, keeping every (call, fault) pair
 		stride := 5
 		for i, c := range all {
-			if (i+int(ev.Seed))%stride == 0 || c.T > time.Second || (strings.HasPrefix(c.Fault, "truncated-") && c.D >= 2*c.T) || c.Prelude != "" || c.Fault == "late-junk-stream" || c.Fault == "lose-one" {
+			if (i+int(ev.Seed))%stride == 0 || c.T > time.Second || (strings.HasPrefix(c.Fault, "truncated-") && c.D >= 2*c.T) || c.Prelude != "" || c.Fault == "late-junk-stream" || c.Fault == "lose-one" || c.Fault == "garbage-ff-run" {
 				sel = append(sel, c)
 			}
 		}
@@ -495,7 +506,7 @@ func TestDeadlines(t *testing.T) {
 func TestCoverage(t *testing.T) {
 	need := []string{"deadlines-complete", "after-failed-call:close:failed-close", "fault:sdr:lose-one"}
 	for _, call := range []string{"sessionless", "newsession", "insession", "close", "sdr", "dcmi"} {
-		need = append(need, "after-failed-call:"+call+":timed-out", "after-failed-call:"+call+":expired-context", "control:"+call, "fault:"+call+":late-junk-stream", "fault:"+call+":blackhole", "fault:"+call+":garbage", "fault:"+call+":garbage-then-blackhole")
+		need = append(need, "after-failed-call:"+call+":timed-out", "after-failed-call:"+call+":expired-context", "control:"+call, "fault:"+call+":garbage-ff-run", "fault:"+call+":late-junk-stream", "fault:"+call+":blackhole", "fault:"+call+":garbage", "fault:"+call+":garbage-then-blackhole")
 	}
 	ev.RequireLabels(t, 1, need...)
 }
